@@ -109,14 +109,32 @@ def feature_args(features=None, no_default=False):
     return a
 
 
-def run_driver(scratch, mode, flags="dbg", features=None, no_default=False, env_extra=None, tag="x", timeout=3000):
+class Fixture:
+    """A fixture crate under /verif/selftest/fixtures copied to scratch (positive controls)."""
+
+    def __init__(self, name):
+        self.name = name
+        self.dir = None
+
+    def __enter__(self):
+        base = os.environ.get("VERIF_SCRATCH_BASE", tempfile.gettempdir())
+        self.dir = tempfile.mkdtemp(prefix="fvfx-", dir=base)
+        src = os.path.join(VERIF, "selftest", "fixtures", self.name)
+        subprocess.run(["rsync", "-a", "--exclude", "target", src + "/", self.dir + "/"], check=True)
+        return self
+
+    def __exit__(self, *a):
+        shutil.rmtree(self.dir, ignore_errors=True)
+
+
+def run_driver(scratch, mode, flags="dbg", features=None, no_default=False, env_extra=None, tag="x", timeout=3000, target="target"):
     """Run the driver over the library target of the scratch copy. Returns (json, stderr, seconds)."""
     ensure_driver()
     os.makedirs(CACHE, exist_ok=True)
     out = os.path.join(scratch.dir, "verif-out-%s-%s.json" % (mode, tag))
     if os.path.exists(out):
         os.remove(out)
-    tdir = os.path.join(CACHE, "target-%s" % flags)
+    tdir = os.path.join(CACHE, "%s-%s" % (target, flags))
     env = dict(os.environ)
     env.update({
         "LD_LIBRARY_PATH": sysroot_lib() + ":" + env.get("LD_LIBRARY_PATH", ""),
@@ -167,7 +185,8 @@ class Report:
         self.known_hits = []
         self.notes = []
         self.known = [f for f in load_known().get("findings", []) if f["property"] == pid]
-        rdir = os.path.join(EVID, "replay", pid)
+        rdir = os.path.join(EVID, "replay", pid + os.environ.get("VERIF_EVID_SUFFIX", ""))
+        self.rdir = rdir
         if os.path.isdir(rdir):
             shutil.rmtree(rdir, ignore_errors=True)
 
@@ -188,7 +207,7 @@ class Report:
             print("KNOWN-FINDING: property=%s %s -- %s" % (self.pid, key, what))
         rc = 0
         for key, detail in self.violations:
-            rdir = os.path.join(EVID, "replay", self.pid)
+            rdir = self.rdir
             os.makedirs(rdir, exist_ok=True)
             name = hashlib.sha256(key.encode()).hexdigest()[:12] + ".json"
             path = os.path.join(rdir, name)
@@ -211,7 +230,7 @@ class Report:
             "wall_s": round(time.time() - self.t0, 2),
             "violations": len(self.violations),
         }
-        with open(os.path.join(EVID, self.pid + ".json"), "w") as fh:
+        with open(os.path.join(EVID, self.pid + os.environ.get("VERIF_EVID_SUFFIX", "") + ".json"), "w") as fh:
             json.dump(ev, fh, indent=1, sort_keys=True)
         print("%s %s: %d violation(s), %d known finding(s), %.1fs" % (self.pid, self.tier, len(self.violations), len(self.known_hits), ev["wall_s"]))
         return rc
@@ -219,3 +238,15 @@ class Report:
 
 def fail_closed(rep, what, detail):
     rep.violation("fail-closed:" + what, {"rule": "fail-closed", "what": what, "detail": detail})
+
+
+def run_ai(scratch, jobs, flags="dbg", features=None, no_default=False, tag="ai", env_extra=None, timeout=3000):
+    """jobs: list of (id, root, {opt: value}) -> driver result dict (or None, stderr)."""
+    path = os.path.join(scratch.dir, "verif-jobs-%s.tsv" % tag)
+    with open(path, "w") as fh:
+        for jid, root, opts in jobs:
+            fh.write("\t".join([jid, root] + ["%s=%s" % kv for kv in sorted(opts.items())]) + "\n")
+    env = {"VERIF_JOBS": path}
+    if env_extra:
+        env.update(env_extra)
+    return run_driver(scratch, "ai", flags=flags, features=features, no_default=no_default, env_extra=env, tag=tag, timeout=timeout)
